@@ -29,7 +29,7 @@ ToSet(sq) == {sq[i] : i \in 1..Len(sq)}
 TraceInit ==
   /\ step = 1 /\ start = 0 /\ end = 1 /\ unit = 1 /\ slices = << >> /\ pres = [f \in Series |-> {}]
   /\ cur = <<0, 0, FALSE>> /\ pc = "idle" /\ pending = {} /\ collected = << >> /\ ranges = << >> /\ arrival = << >>
-  /\ q = 1 /\ delta = -1 /\ cache = << >> /\ miss = {} /\ hist = << >>
+  /\ q = 1 /\ delta = -1 /\ skew = 0 /\ cache = << >> /\ miss = {} /\ hist = << >>
   /\ l = 1 /\ cid = 0 /\ done = FALSE /\ bound = FALSE /\ obsSlices = << >> /\ sessStarts = {}
 
 \* ascending sequence of a finite set of integers
@@ -39,36 +39,41 @@ RECURSIVE ConcatCached(_, _, _, _)
 ConcatCached(sl, ks, c, st) ==        \* answers of the cached slices ks (ascending) of sl
   IF ks = << >> THEN << >> ELSE c[CacheKey(sl[Head(ks)], st)] \o ConcatCached(sl, Tail(ks), c, st)
 
-\* a query of a session begins. q = 1: a new session (fresh cache). Slices found in the cache are
-\* answered by processJob without a request; they reach the collection loop while the requests of the
-\* others are still held by the server, so the model collects them first (in slice order).
+\* a query of a session begins. q = 1: a new session (fresh cache).
+\* gated (hook H3 present): every slice result - cache hit or server answer - waits at the client's "got"
+\* gate and is let through by a Respond record, so the model collects nothing by itself.
+\* not gated (fallback): slices found in the cache are answered by processJob without a request; they reach
+\* the collection loop while the requests of the others are still held by the server, so the model collects
+\* them first (in slice order).
 TQuery ==
   /\ l <= Len(TraceLog) /\ Rec.ev = "Query"
   /\ step' = Rec.step /\ start' = Rec.start /\ end' = Rec.end /\ unit' = Rec.unit /\ q' = Rec.q
   /\ pres' = [f \in Series |-> IF f <= Len(Rec.pres) THEN ToSet(Rec.pres[f]) ELSE {}]
-  /\ LET sl == QuerySlices(Rec.start, Rec.end, Rec.step)
+  /\ skew' = Rec.end - Rec.start - Rec.dur
+  /\ LET sl == QuerySlices(Rec.start, Rec.end, Rec.step, Rec.dur)
          c0 == IF Rec.q = 1 THEN << >> ELSE cache
          ms == {i \in 1..Len(sl) : CacheKey(sl[i], Rec.step) \notin DOMAIN c0}
-         hits == AscSeq((1..Len(sl)) \ ms)
+         hits == IF Rec.gated THEN << >> ELSE AscSeq((1..Len(sl)) \ ms)
          asked == [i \in 1..Cardinality(ms) |-> sl[AscSeq(ms)[i]]]
      IN
-     /\ slices' = sl /\ miss' = ms /\ pending' = ms /\ cache' = c0
+     /\ slices' = sl /\ miss' = ms /\ cache' = c0
+     /\ pending' = IF Rec.gated THEN 1..Len(sl) ELSE ms
      /\ collected' = ConcatCached(sl, hits, c0, Rec.step)
      /\ arrival' = hits
      /\ bound' = (Rec.exact /\ Rec.slices = asked /\ (Rec.q = 1 \/ pc = "done"))
      /\ IF bound' THEN TRUE
         ELSE PrintT(<<"DRIFT", Rec.id, ToJson([what |-> "slices", q |-> Rec.q, expected |-> asked, observed |-> Rec.slices])>>)
-     /\ pc' = IF ms = {} THEN "merge" ELSE "wait"
+     /\ pc' = IF pending' = {} THEN "merge" ELSE "wait"
   /\ obsSlices' = Rec.slices
   /\ sessStarts' = (IF Rec.q = 1 THEN {} ELSE sessStarts) \cup {Rec.slices[i].s : i \in 1..Len(Rec.slices)}
   /\ ranges' = << >> /\ cur' = <<0, 0, FALSE>>
   /\ cid' = Rec.id /\ l' = l + 1 /\ UNCHANGED <<done, delta, hist>>
 
-\* Rec.k counts the requested slices in ascending order of their start
+\* Rec.k is the slice of the model (by its start) whose result was let through / whose response was released
 TRespond ==
   /\ l <= Len(TraceLog) /\ Rec.ev = "Respond"
-  /\ IF bound /\ pc = "wait" /\ Rec.k \in 1..Cardinality(miss) /\ AscSeq(miss)[Rec.k] \in pending
-     THEN Respond(AscSeq(miss)[Rec.k]) /\ UNCHANGED bound
+  /\ IF bound /\ pc = "wait" /\ Rec.k \in pending
+     THEN Respond(Rec.k) /\ UNCHANGED bound
      ELSE /\ UNCHANGED vars /\ bound' = FALSE
           /\ IF bound THEN PrintT(<<"DRIFT", cid, ToJson([what |-> "respond", k |-> Rec.k])>>) ELSE TRUE
   /\ l' = l + 1 /\ UNCHANGED <<cid, done, obsSlices, sessStarts>>
@@ -105,14 +110,27 @@ TResult ==
   /\ pc' = IF bound /\ pc = "merge" THEN "done" ELSE "idle"
   /\ bound' = FALSE
   /\ l' = l + 1
-  /\ UNCHANGED <<step, start, end, unit, slices, pres, cur, pending, collected, arrival, q, delta, cache, miss, hist,
+  /\ UNCHANGED <<step, start, end, unit, slices, pres, cur, pending, collected, arrival, q, delta, skew, cache, miss, hist,
                  cid, done, obsSlices, sessStarts>>
+
+\* Environment assumptions E3 / E4 of RangeSlice, checked against the real thing in every run:
+\* Go's Time.Round / Duration.Round on the offsets the cases use, and the evaluation timestamps of the real
+\* PromQL engine for a range query whose start is not a multiple of the step.
+TProbe ==
+  /\ l <= Len(TraceLog) /\ Rec.ev = "EnvProbe"
+  /\ LET okRound == \A i \in 1..Len(Rec.rounds) : RoundTo(Rec.rounds[i].t, Rec.rounds[i].d) = Rec.rounds[i].r
+         okDur == \A i \in 1..Len(Rec.durs) : RoundTo(7200, Rec.durs[i].st) = Rec.durs[i].r
+         okGrid == \A i \in 1..Len(Rec.grids) :
+                     EvalTimes([s |-> Rec.grids[i].s, e |-> Rec.grids[i].e], Rec.grids[i].st) = ToSet(Rec.grids[i].ts)
+     IN IF okRound /\ okDur /\ okGrid THEN TRUE
+        ELSE PrintT(<<"TRUTH", 0, ToJson([round |-> okRound, dur |-> okDur, grid |-> okGrid])>>)
+  /\ l' = l + 1 /\ UNCHANGED <<vars, cid, done, bound, obsSlices, sessStarts>>
 
 TDone ==
   /\ l = Len(TraceLog) + 1 /\ ~done
   /\ done' = TRUE /\ PrintT(<<"DONE", l - 1>>)
   /\ UNCHANGED <<vars, l, cid, bound, obsSlices, sessStarts>>
 
-TraceNext == TQuery \/ TRespond \/ TResult \/ TDone
+TraceNext == TProbe \/ TQuery \/ TRespond \/ TResult \/ TDone
 TraceSpec == TraceInit /\ [][TraceNext]_tvars
 =============================================================================
